@@ -59,8 +59,15 @@ def configs(tier):
 
 
 class FakePath:
-    def __init__(self, name, is_dir=False, children=()):
-        self.name, self._dir, self._children = name, is_dir, list(children)
+    """stands for a pathlib.Path: str() / fspath give the whole path, .name only the last component (as pathlib does)"""
+    def __init__(self, path, is_dir=False, children=()):
+        self._path, self._dir, self._children = path, is_dir, list(children)
+
+    name = property(lambda self: self._path.rsplit("/", 1)[-1])
+    stem = property(lambda self: self.name.rsplit(".", 1)[0])
+    suffix = property(lambda self: ("." + self.name.rsplit(".", 1)[1]) if "." in self.name else "")
+    parent = property(lambda self: FakePath(self._path.rsplit("/", 1)[0] if "/" in self._path else ".", is_dir=True))
+    parts = property(lambda self: tuple(self._path.split("/")))
 
     def is_dir(self):
         return self._dir
@@ -68,22 +75,25 @@ class FakePath:
     def is_file(self):
         return not self._dir
 
+    def exists(self):
+        return True
+
     def iterdir(self):
         return iter(self._children)
 
     def __fspath__(self):
-        return self.name
+        return self._path
 
     def __str__(self):
-        return self.name
+        return self._path
 
     __repr__ = __str__
 
     def __hash__(self):
-        return hash(self.name)
+        return hash(self._path)
 
     def __eq__(self, o):
-        return isinstance(o, FakePath) and o.name == self.name
+        return isinstance(o, FakePath) and o._path == self._path
 
 
 TOK = re.compile(r"<sym#(\d+)>")
@@ -100,7 +110,8 @@ def harness(cfg, ns):
             return f"<sym#{len(reg) - 1}>"
         SymNum.__format__ = lambda self, spec: tok(self)
         SymNum.__str__ = lambda self: tok(self)
-        files = [FakePath(f"f{i}.csv") for i in range(cfg["files"])]
+        # several files: the SAME file name in different directories (a result keyed by the bare file name would lose one of them)
+        files = [FakePath(f"d{i}/in.csv") for i in range(cfg["files"])]
         if cfg.get("light"):
             fmt, mathet, g_cat, seeded = "csv", False, True, True
             g_k = bool(ctx.choose(2, tag="gk"))
@@ -508,7 +519,9 @@ def _replay_one(case, abd=(2.0, 1.5, 0.75)):
             # two different input files in one invocation: each file's entry must be its own API result
             try:
                 # a second file whose categories are a strict subset of the first one's, with another largest distance
-                src_wide, src2 = os.path.join(d, "wide.csv"), os.path.join(d, "narrow.csv")
+                # (both called in.csv, in two directories: results are per input *path*)
+                os.makedirs(os.path.join(d, "wide")), os.makedirs(os.path.join(d, "narrow"))
+                src_wide, src2 = os.path.join(d, "wide", "in.csv"), os.path.join(d, "narrow", "in.csv")
                 with open(src_wide, "w") as f:
                     for a_, rows_ in (("ann1", [("1", 0, 5), ("2", 6, 10), ("10", 12, 18)]), ("ann2", [("1", 0.5, 5.5), ("10", 6, 11), ("2", 12, 17)]),
                                       ("ann3", [("2", 1, 5), ("2", 6.5, 10), ("10", 13, 18)])):
